@@ -58,7 +58,39 @@ func c05Ifs(xs []int) []interface{} {
 	return out
 }
 
+//go:noinline
+func c05F1b(a int) int { return -1 - a }
+
+// targets whose result type is an interface or a slice: a result token t is configured as nil when t%5 == 0, otherwise as a
+// value that carries t (error: c05Err(t); interface{}: int t or string "s<t>" by parity; []byte: the decimal text)
+
+type c05Err int
+
+func (e c05Err) Error() string { return "e" + strconv.Itoa(int(e)) }
+
+type c05Orig struct{}
+
+func (c05Orig) Error() string { return "orig" }
+
+//go:noinline
+func c05FE(a int) error { return c05Orig{} }
+
+//go:noinline
+func c05FEb(a int) error { return c05Orig{} }
+
+//go:noinline
+func c05FI(a int) interface{} { return c05Orig{} }
+
+//go:noinline
+func c05FB(a int) []byte { return []byte("G") }
+
+//go:noinline
+func c05priv(a int) int { return -1 - a }
+
 type c05T struct{ pad int }
+
+//go:noinline
+func (t *c05T) M2(a int) int { return -1 - a - t.pad }
 
 //go:noinline
 func (t *c05T) M(a int) int { return -1 - a - t.pad }
@@ -71,6 +103,9 @@ type c05Target struct {
 	call   func(a int) (int, bool) // value, pair-consistent
 	pair   bool
 	fixed  int // variadic targets: number of leading fixed parameters; -1 = not variadic
+	// targets with non-int results: how a result token is configured and how a call is rendered ("v<t>", "vnil", "G")
+	val   func(v int) interface{}
+	callS func(a int) string
 }
 
 func c05Variadic(fixed int, mk func(b *Builder) ExportedMocker, f func(xs []int) int) *c05Target {
@@ -83,8 +118,74 @@ func c05Variadic(fixed int, mk func(b *Builder) ExportedMocker, f func(xs []int)
 	}}
 }
 
-func c05NewTarget(kind string) *c05Target {
+func c05Render(r interface{}) string {
+	switch x := r.(type) {
+	case nil:
+		return "vnil"
+	case c05Orig:
+		return "G"
+	case c05Err:
+		return "v" + strconv.Itoa(int(x))
+	case int:
+		return "v" + strconv.Itoa(x)
+	case string:
+		return "v" + strings.TrimPrefix(x, "s")
+	case []byte:
+		if x == nil {
+			return "vnil"
+		}
+		if string(x) == "G" {
+			return "G"
+		}
+		return "v" + string(x)
+	}
+	return fmt.Sprintf("X:type-%T", r)
+}
+
+// c05NewTarget: idx 1 selects the sibling target of the same signature (a second function / method / interface variable)
+// for the kinds that have one.
+func c05NewTarget(kind string, idx int) *c05Target {
 	switch kind {
+	case "fe":
+		f := c05FE
+		if idx == 1 {
+			f = c05FEb
+		}
+		return &c05Target{fixed: -1, mocker: func(b *Builder) ExportedMocker {
+			if idx == 1 {
+				return b.Func(c05FEb)
+			}
+			return b.Func(c05FE)
+		}, val: func(v int) interface{} {
+			if v%5 == 0 {
+				return nil
+			}
+			return c05Err(v)
+		}, callS: func(a int) string { return c05Render(f(a)) }}
+	case "fi":
+		return &c05Target{fixed: -1, mocker: func(b *Builder) ExportedMocker { return b.Func(c05FI) },
+			val: func(v int) interface{} {
+				switch {
+				case v%5 == 0:
+					return nil
+				case v%2 == 0:
+					return "s" + strconv.Itoa(v)
+				}
+				return v
+			}, callS: func(a int) string { return c05Render(c05FI(a)) }}
+	case "fb":
+		return &c05Target{fixed: -1, mocker: func(b *Builder) ExportedMocker { return b.Func(c05FB) },
+			val: func(v int) interface{} {
+				if v%5 == 0 {
+					return nil
+				}
+				return []byte(strconv.Itoa(v))
+			}, callS: func(a int) string { return c05Render(c05FB(a)) }}
+	case "xf":
+		// unexported function by name, turned into a DefMocker with As (mocker.go UnexportedFuncMocker.As)
+		return &c05Target{fixed: -1, mocker: func(b *Builder) ExportedMocker {
+			return b.ExportFunc("c05priv").As(func(a int) int { return 0 })
+		}, call: func(a int) (int, bool) { return c05priv(a), true }}
 	case "v0":
 		return c05Variadic(0, func(b *Builder) ExportedMocker { return b.Func(c05V0) }, func(xs []int) int { return c05V0(xs...) })
 	case "v1":
@@ -96,6 +197,10 @@ func c05NewTarget(kind string) *c05Target {
 		return c05Variadic(1, func(b *Builder) ExportedMocker { return b.Struct(&c05T{}).Method("V") },
 			func(xs []int) int { return obj.V(xs[0], xs[1:]...) })
 	case "f1":
+		if idx == 1 {
+			return &c05Target{fixed: -1, mocker: func(b *Builder) ExportedMocker { return b.Func(c05F1b) },
+				call: func(a int) (int, bool) { return c05F1b(a), true }}
+		}
 		return &c05Target{fixed: -1, mocker: func(b *Builder) ExportedMocker { return b.Func(c05F1) },
 			call: func(a int) (int, bool) { return c05F1(a), true }}
 	case "f2":
@@ -111,6 +216,10 @@ func c05NewTarget(kind string) *c05Target {
 			}}
 	case "me":
 		obj := &c05T{}
+		if idx == 1 {
+			return &c05Target{fixed: -1, mocker: func(b *Builder) ExportedMocker { return b.Struct(&c05T{}).Method("M2") },
+				call: func(a int) (int, bool) { return obj.M2(a), true }}
+		}
 		return &c05Target{fixed: -1, mocker: func(b *Builder) ExportedMocker { return b.Struct(&c05T{}).Method("M") },
 			call: func(a int) (int, bool) { return obj.M(a), true }}
 	case "if":
@@ -128,6 +237,9 @@ func c05NewTarget(kind string) *c05Target {
 }
 
 func c05Val(t *c05Target, v int) []interface{} {
+	if t.val != nil {
+		return []interface{}{t.val(v)}
+	}
 	if t.pair {
 		return []interface{}{v % 50, v}
 	}
@@ -141,7 +253,9 @@ func c05Vals(t *c05Target, s string) []interface{} {
 	}
 	for _, p := range strings.Split(s, ",") {
 		v, _ := strconv.Atoi(p)
-		if t.pair {
+		if t.val != nil {
+			out = append(out, t.val(v))
+		} else if t.pair {
 			out = append(out, []interface{}{v % 50, v})
 		} else {
 			out = append(out, v)
@@ -154,6 +268,14 @@ func c05Cond(t *c05Target, s string) (kind byte, vals []interface{}) {
 	if t.fixed >= 0 && s[0] == 'e' {
 		v, _ := strconv.Atoi(s[1:])
 		return 'e', c05Ifs(c05Args(v))
+	}
+	if t.fixed >= 0 && s[0] == 'i' {
+		// In([]interface{}{a, b, …}, []interface{}{…}): every alternative is a whole argument list
+		for _, p := range strings.Split(s[1:], ",") {
+			v, _ := strconv.Atoi(p)
+			vals = append(vals, c05Ifs(c05Args(v)))
+		}
+		return 'i', vals
 	}
 	if s == "y" {
 		return 'y', []interface{}{arg.Any()}
@@ -234,6 +356,9 @@ func c05Call(t *c05Target, a int) (res string) {
 			res = c05PanicClass(r)
 		}
 	}()
+	if t.callS != nil {
+		return t.callS(a)
+	}
 	v, ok := t.call(a)
 	if !ok {
 		return "X:pair"
@@ -246,13 +371,17 @@ func c05Call(t *c05Target, a int) (res string) {
 
 // c05Seq runs one configuration-and-call history on a fresh builder and target.
 func c05Seq(kind string, ops []string) (res string) {
-	t := c05NewTarget(kind)
-	if t == nil {
+	ts := [2]*c05Target{c05NewTarget(kind, 0), nil}
+	if ts[0] == nil {
 		return "bad-op"
 	}
+	t := ts[0]
 	b := Create()
 	defer b.Reset()
+	var ws [2]*When
 	var w *When
+	act := 0
+	used1 := false
 	var obs []string
 	defer func() {
 		if r := recover(); r != nil {
@@ -265,6 +394,23 @@ func c05Seq(kind string, ops []string) (res string) {
 			return "bad-op"
 		}
 		k, a := op[:i], op[i+1:]
+		if k == "T" {
+			// switch to the other target of the same signature, mocked through the same builder
+			n, _ := strconv.Atoi(a)
+			if n != 0 && n != 1 {
+				return "bad-op"
+			}
+			if n == 1 && ts[1] == nil {
+				if kind != "f1" && kind != "me" && kind != "if" && kind != "fe" {
+					return "bad-op"
+				}
+				ts[1] = c05NewTarget(kind, 1)
+			}
+			ws[act] = w
+			act, t, w = n, ts[n], ws[n]
+			used1 = used1 || n == 1
+			continue
+		}
 		switch k {
 		case "mR":
 			v, _ := strconv.Atoi(a)
@@ -296,7 +442,9 @@ func c05Seq(kind string, ops []string) (res string) {
 					}
 					x, _ := strconv.Atoi(kv[0])
 					v, _ := strconv.Atoi(kv[1])
-					if t.pair {
+					if t.val != nil {
+						pairs = append(pairs, arg.Pair{Args: x, Return: []interface{}{t.val(v)}})
+					} else if t.pair {
 						pairs = append(pairs, arg.Pair{Args: x, Return: []interface{}{v % 50, v}})
 					} else if t.fixed >= 0 {
 						pairs = append(pairs, arg.Pair{Args: c05Ifs(c05Args(x)), Return: v})
@@ -324,7 +472,11 @@ func c05Seq(kind string, ops []string) (res string) {
 	if len(obs) > 0 {
 		o = strings.Join(obs, " ")
 	}
-	return o + " | " + c05State(w)
+	ws[act] = w
+	if used1 {
+		return o + " | " + c05State(ws[0]) + " || " + c05State(ws[1])
+	}
+	return o + " | " + c05State(ws[0])
 }
 
 // c05Serve calls the real Result() on a BaseMatcher put into state (n results, cursor cur).
@@ -385,8 +537,8 @@ type c05Rec struct {
 // global atomic clock before and after each call.  Output: per stub `n<number of results the stub holds>` and the visible
 // events in stamp order.
 func c05Conc(kind, mode string, n, G, K int) (res string) {
-	t := c05NewTarget(kind)
-	if t == nil || t.pair {
+	t := c05NewTarget(kind, 0)
+	if t == nil || t.callS != nil {
 		return "bad-op"
 	}
 	b := Create()
@@ -403,7 +555,11 @@ func c05Conc(kind, mode string, n, G, K int) (res string) {
 	seq := func(base int) []interface{} {
 		var vs []interface{}
 		for i := 0; i < n; i++ {
-			vs = append(vs, base+i/div)
+			if t.pair {
+				vs = append(vs, []interface{}{(base + i/div) % 50, base + i/div})
+			} else {
+				vs = append(vs, base+i/div)
+			}
 		}
 		return vs
 	}
@@ -423,11 +579,23 @@ func c05Conc(kind, mode string, n, G, K int) (res string) {
 	case "d", "r":
 		w := t.mocker(b).Returns(seq(0)...)
 		stubs = []Matcher{w.defaultReturns}
-	case "c":
+	case "c", "n":
 		groups = 2
-		w := t.mocker(b).Return(999999)
-		w.When(condArgs(argBase)...).Returns(seq(0)...)
-		w.When(condArgs(argBase + 1)...).Returns(seq(100000)...)
+		w := t.mocker(b).Return(c05Val(t, 999999)...)
+		if mode == "n" {
+			// ContainsMatcher stubs: In(a) (variadic targets: In([]interface{}{…}))
+			in := func(a int) []interface{} {
+				if t.fixed >= 0 {
+					return []interface{}{condArgs(a)}
+				}
+				return condArgs(a)
+			}
+			w.In(in(argBase)...).Returns(seq(0)...)
+			w.In(in(argBase + 1)...).Returns(seq(100000)...)
+		} else {
+			w.When(condArgs(argBase)...).Returns(seq(0)...)
+			w.When(condArgs(argBase + 1)...).Returns(seq(100000)...)
+		}
 		if len(w.matches) != 2 {
 			return "config-panic:matches"
 		}
@@ -454,8 +622,8 @@ func c05Conc(kind, mode string, n, G, K int) (res string) {
 			a := argBase + g%groups
 			my := make([]c05Rec, 0, K)
 			atomic.AddInt32(&ready, 1)
-			for atomic.LoadInt32(&ready) < int32(G) {
-				if spinYield {
+			for spins := 0; atomic.LoadInt32(&ready) < int32(G); spins++ {
+				if spinYield || spins > 2000000 { // never burn a CPU quota waiting for goroutines that cannot run
 					runtime.Gosched()
 				}
 			}
